@@ -959,8 +959,17 @@ class InspectFunction(object):
         # For now, do not look carefully at the arguments, just parse the arguments of
         # the functions.
         # TODO: add more arguments if we can parse constant arguments
+        named_args = get_arg_ctx_ast(caller_fun, [], OrderedDict())
+        # The arguments given at the call site are not inspected: the parameters they bind are
+        # unknown at this point, they must not be taken for their default values.
+        given_args = set(list(named_args.keys())[: len(node.args)]) | set(
+            k.arg for k in node.keywords
+        )
+        for arg_name in named_args:
+            if arg_name in given_args:
+                named_args[arg_name] = None
         arg_ctx = FunctionArgContext(
-            named_args=get_arg_ctx_ast(caller_fun, [], OrderedDict()),
+            named_args=named_args,
             inner_call_key=context_sig,
         )
         new_call_stack = call_stack + [caller_fun_path]
